@@ -15,26 +15,18 @@ let first_out t =
 
 (* certified equivalence; a difference is tolerated only inside a region that is certified thin *)
 let equiv_mod_thin ~id ~tag n (t_impl : ptree) (t_ref : ptree) : bool =
-  match tree_equiv_x (nat_of_int n) t_impl t_ref with
-  | Equal -> true
-  | TUnknown -> result id "UNK" tag "kernel-unknown"; false
-  | Differ x ->
-    (* the exact cell of x in the reference tree, as closed rows, tightened by tau *)
-    let thin_ok =
-      (match pieces (nat_of_int n) t_ref [] with
-       | Some ps ->
-         (match List.find_opt (fun (cs, _) -> check_model (nat_of_int n) cs x) ps with
-          | Some (cs, _) -> thin_cert (nat_of_int n) tau (List.map (fun c -> (c.coef, c.rhs)) cs) = Some true
-          | None -> false)
-       | None -> false) in
-    if thin_ok then (bump "thin_region_difference_allowed"; true)
-    else begin
-      if check_cex (nat_of_int n) [] t_impl t_ref x then
-        result id "VIOL" tag (Printf.sprintf "x=%s after=%s before=%s" (string_of_vec x)
-                                (string_of_ovec (eval t_impl x)) (string_of_ovec (eval t_ref x)))
-      else result id "UNK" tag "counterexample-not-validated";
-      false
-    end
+  (* verified comparison (Cert/EquivThin.v): cells of the REFERENCE tree whose closed region is certified thin are
+     skipped, everything else must agree for all inputs; a Differ comes with a point outside every skipped cell *)
+  (match tree_equiv_skip (thin_skip (nat_of_int n) tau) (nat_of_int n) [] t_ref t_impl with
+   | Equal ->
+     (match tree_equiv_x (nat_of_int n) t_impl t_ref with Equal -> () | _ -> bump "thin_region_difference_allowed"); true
+   | TUnknown -> result id "UNK" tag "kernel-unknown"; false
+   | Differ x ->
+     if check_cex (nat_of_int n) [] t_impl t_ref x then
+       result id "VIOL" tag (Printf.sprintf "x=%s after=%s before=%s" (string_of_vec x)
+                               (string_of_ovec (eval t_impl x)) (string_of_ovec (eval t_ref x)))
+     else result id "UNK" tag "counterexample-not-validated";
+     false)
 
 (* well-formedness of a dumped tree (C04's predicate): tree-shaped arena, binary one-row decisions with a child,
    every node function on R^n, terminals with one common output dimension *)
